@@ -125,7 +125,7 @@ class CoreScenario(Scenario):
             md = self.a.mdefs[s.target]
             if md.get("val") and s.node.get("arg"):
                 op, k = md["val"]
-                bad = {"ne": k, "lt": k, "bit0": 1 - k}[op]
+                bad = {"ne": k, "lt": k, "bit0": 1 - k, "mask": 0}[op]
                 out[s.node["arg"]] = (bad ^ s.node["k"]) & mask(md["iw"])
         return out
 
@@ -191,6 +191,8 @@ class CoreScenario(Scenario):
     # ---- per-cycle helpers --------------------------------------------------------------------
     def en(self, s, stim):
         e = s.node.get("en")
+        if e in ("c0", "c1"):
+            return int(e == "c1")
         return stim.get(e, 0) if e else 1
 
     def act(self, s, stim, obs):
@@ -319,6 +321,10 @@ class CoreScenario(Scenario):
         a = self.a
         for t in a.transactions:
             if t in a.branches:
+                # a condition() branch is a nested transaction: ready dependent on the enclosing body
+                if self.run(t, obs) and not self.run(a.branches[t][2], obs):
+                    raise Violation("ran-without-ready-dependency",
+                                    f"branch {t} runs but the enclosing body {a.branches[t][2]} does not", body=t)
                 continue
             if not self.run(t, obs):
                 if self.body_ready(t, stim, obs):
@@ -406,7 +412,7 @@ class CoreScenario(Scenario):
                             self.hit("argument_muxed_among_several_sites")
                 elif acts:
                     args = [self.arg(s, stim, obs) for s in acts]
-                    want = 0
+                    want = len(args) if md["comb"] == "cnt" else 0
                     for x in args:
                         want = (want | x) if md["comb"] == "or" else (want + x)
                     want &= mask(md["iw"])
@@ -423,6 +429,9 @@ class CoreScenario(Scenario):
     # C06 ----------------------------------------------------------------------------------------
     def cval(self, ref, stim, obs):
         """value of a condition / switch test: a free input, or bits of a method's observed data_in"""
+        if ref.startswith("x:"):
+            _, src, msk = ref.split(":")
+            return int((stim.get(src, 0) & int(msk)) != 0)
         if ref.startswith("d:"):
             _, mid, bit = ref.split(":")
             x = obs.get(f"{mid}.din", 0)
